@@ -68,5 +68,10 @@ def mean_field_two_baths(inp):
     return {'violates': max(dev) > 1e-5, 'max deviation unique=True vs unique=False (species 1, species 2, field)': dev}
 
 
+def svd_sweep_parameters(inp):
+    from replay.c01 import svd_sweep_parameters as f
+    return f(inp)
+
+
 # thorough tier (bounded native sweeps): (function, inputs, obligation of the open finding it reproduces or None)
 THOROUGH = [('unique_vs_full', {}, None), ('mean_field_two_baths', {}, None)]
